@@ -166,6 +166,7 @@ def own_through_model(chk):
     W = {"srt": pycaption.SRTWriter, "webvtt": pycaption.WebVTTWriter, "microdvd": pycaption.MicroDVDWriter}
     op = {"srt": "srt.write", "webvtt": "vtt.write", "microdvd": "mdvd.write"}
     markers = ("</tt>", "<sami", "webvtt")
+    vsub = chk.sub("format_name_in_text")
     jobs = []
     b = core.Batch()
     for i in range(60 if chk.tier == "quick" else 600):
@@ -177,8 +178,11 @@ def own_through_model(chk):
             for _ in range(rng.randint(1, 3)):
                 ln = textgen.adv_line(rng, ("|",) if name == "microdvd" else ()).strip()
                 # the marker hypothesis of the theorems (WebVTT needs none: `<` is escaped)
-                if name != "webvtt" and any(m in ln.lower() for m in markers):
+                # (`</tt>` and `<sami` in any letter case, `WEBVTT` as it stands: other spellings of that word are just text)
+                if name != "webvtt" and (any(m in ln.lower() for m in markers[:2]) or "WEBVTT" in ln):
                     ln = "plain"
+                if vsub.random() < 0.2:
+                    ln = (ln + " " + vsub.choice(["WebVTT", "webvtt", "webvtt.js", "wEBVTT", "Webvtt"])).strip()
                 if not ln or any(ch in ln for ch in "\n\r\x0b\x0c\x1c\x1d\x1e\x85\u2028\u2029"):
                     ln = "x"
                 lines.append(ln)
